@@ -53,7 +53,31 @@ CHECKS['C14'] = dict(
     note='Trusted: fold/detection model in ddv/checks/c14.py. "Declares something of a theory" is read as the code reads it (result sort of a declaration / a datatype declaration); functions mentioning a theory only in parameter sorts are not generated. The traced-run clause (mutator names of tested candidates) is checked by the SCHED executions of C01/C02.',
     design='3/C14')
 
+SCHED_NOTE = ('Trusted: the virtual-pool abstraction of DESIGN 2.5 (PULL/FIN/DEL atomic, FIFO result queue, flag reads summarised by the index k of the first read that sees "set", run-ahead of the producer capped at 2 queued tasks), the command models (deterministic functions of the token sequence), the reference tokenizer, CPython. Schedule coverage is exhaustive up to the stated deviation budget, not beyond.')
+
+CHECKS['C01'] = dict(
+    level='model_checking', engine='SCHED',
+    technique='stateless deviation-bounded exploration of all schedules of the real ddsmt main() under a virtual process pool, over a scenario product, with a modelled command',
+    text='The real ddsmt.__main__.main() runs in-process with multiprocessing replaced by a virtual pool whose every degree of freedom (which check finishes next, producer run-ahead, late main loop, which read of the abort flag first sees it set) is a choice point, and with the command replaced by a deterministic function of the candidate file\'s tokens. 429 scenarios (10 inputs x command models x 3 strategies x -j 1/2/3 x 3 output formats x 8 comparison settings x cross-check x mutator sets) are explored exhaustively up to 1 schedule deviation (thorough 2) - 70 k executions quick. On every execution: the command model re-run on the output file as written matches golden under the configured comparison, the output\'s token sequence is one the command was run on and accepted (command-side log), the input file is unchanged, candidate files are process-private.',
+    note=SCHED_NOTE, design='3/C01')
+CHECKS['C02'] = dict(
+    level='model_checking', engine='SCHED',
+    technique='stateless deviation-bounded schedule exploration + lazily decided adversarial command; fixed-point oracle re-deriving every proposal on the final input',
+    text='Hierarchical and hybrid runs (-j 1/2/3, six mutator sets, 12 input/command families) are explored up to 1 schedule deviation (thorough 2); on micro inputs the command is adversarial and lazily decided with accept budget 2, i.e. every deterministic command that accepts at most 2 of the candidates it is shown. At normal termination every proposal of every enabled mutator at every node of the final in-memory input is re-derived with ddSMT\'s own Producer, rendered as the command would see it, and must be rejected (concrete command) or must have been put to the command and rejected (adversarial). Default-schedule runs are additionally re-run with --strategy hierarchical on their own output and must report "unable to minimize". 58 k executions, 850 k proposals re-checked quick.',
+    note=SCHED_NOTE, design='3/C02')
+CHECKS['C05'] = dict(
+    level='model_checking', engine='SCHED',
+    technique='stateless deviation-bounded exploration of all completion orders (incl. simultaneous and late successes) under a virtual pool; chain invariant on monitored derive/verdict/write events',
+    text='All strategies with -j 2/3 on scenarios built so that ddmin\'s parallel path and hierarchical restarts are exercised (models that need most of the input, same-length replacements that keep pickle sizes equal), explored up to 1 schedule deviation (thorough 2), plus the adversarial command with accept budget 2 (every pair of candidates of a run as the successes). Per virtual worker the per-process cache of strategy_ddmin is kept separately, tasks and results are pickled as the real pool does. Oracle on the monitored events: every content written was accepted before, was derived by one apply_simp call from its immediate predecessor (stale bases are flagged), the file at exit is the last write. 63 k executions quick; 1.3 k executions with a discarded success.',
+    note=SCHED_NOTE, design='3/C05')
+CHECKS['C13'].update(
+    level='model_checking', engine='SCHED+ENUM',
+    text=CHECKS['C13']['text'] + ' History part: 42 scenarios with sharing mutators (let substitution, variable elimination, constants built from the declaration\'s sort node, equalities with ()) x 3 strategies x -j 1/2 explored up to 1 schedule deviation under the virtual pool; at every TaskGenerator / Producer construction (230 k) all node ids of the input handed over must be pairwise distinct.',
+    note='Trusted: DAG enumerator and oracle in ddv/checks/c13.py; ' + SCHED_NOTE)
+
 ENGINES = [
+    dict(name='SCHED', path='ddv/sched.py', serves_properties=['C01', 'C02', 'C05', 'C13', 'C18'],
+         kind_free_text='stateless deviation-bounded explorer (ddv/explore.py) over the real ddsmt main() under a virtual process pool and a modelled command'),
     dict(name='ENUM', path='ddv/sexp.py', serves_properties=['C07', 'C08', 'C09', 'C11', 'C12', 'C13', 'C14', 'C16', 'C17'],
          kind_free_text='bounded-exhaustive enumerators (trees, DAG sharing patterns, lexeme sequences, option sequences) + independent reference models'),
 ]
